@@ -7,3 +7,5 @@ func verifMeterDispatch() {}
 func verifMeterRoll()     {}
 func verifMeterFate()     {}
 func verifMeterDraw()     {}
+
+func verifTraceEmit(CodeType) {}
